@@ -33,7 +33,8 @@ COMPONENTS = {
     "real": ["space_packet_parser.packets.ccsds_generator", "XtcePacketDefinition.packet_generator (headers-only and "
              "with a loaded header-only XTCE definition)", "io.BufferedReader", "io.BytesIO"],
     "stub": ["SimRaw raw disk device (EOF-read budget, injected EIO)", "SimSocket.recv over a simulated byte pipe "
-             "(FIN, RST, stall + timeout on simulated time)", "producer task that dies at the cut", "SimClock"],
+             "(FIN, RST, stall + timeout on simulated time)", "producer task that dies at the cut", "SimClock",
+             "clone of ccsds_generator with the 20 MB trim constant replaced by 7 / 64 / 1000 (knob; genuine constant kept in 1 of 4 runs)"],
 }
 ASSUMPTIONS = [
     "termination is decided by the simulated source: the 9th read/recv after end-of-stream is fatal, plus an item cap "
@@ -44,7 +45,7 @@ ASSUMPTIONS = [
     "cut offsets are exhaustive per enumerated workload; workloads are sampled",
 ]
 EXPECTED_PROBES = ("eof_at_boundary", "eof_in_prefix", "eof_in_header", "eof_in_body", "empty_source", "sock_fin",
-                   "sock_rst", "sock_stall_timeout", "disk_eio", "garbage_bytes")
+                   "sock_rst", "sock_stall_timeout", "disk_eio", "garbage_bytes", "trim_taken_before_cut")
 ENUM_LIMIT = 160
 
 _packets = factory.import_library()          # import only
@@ -72,6 +73,9 @@ def run(ch, render=False):
     progress = ch.chance(1, 8, "progress")
     skind = ch.weighted([(6, "valid"), (2, "flipped"), (1, "random")], "stream_kind")
     long_ = ch.chance(1, 6, "long")
+    # swarm knob: the buffer-trim threshold (20 MB in the shipped code) replaced by a small value in a clone of
+    # ccsds_generator, so that the trim branch is taken before the crash point
+    knob = ch.pick((None, 7, 64, 1000), "trim")
     # error-injection configuration is separate from plain truncation (and counted separately)
     inject = "none"
     if src == "socket":
@@ -219,11 +223,18 @@ def run(ch, render=False):
     got = []
     err = None
     stopped = False
+    trim = None
     cap_items = total // 7 + 2
     try:
         with warnings.catch_warnings():
             warnings.simplefilter("ignore")
             kwargs = dict(buffer_read_size_bytes=rs, show_progress=progress, skip_header_bytes=k)
+            # the knob stays installed for the whole run: packet_generator looks the framer up (as the module
+            # attribute packets.ccsds_generator) only when it is first advanced
+            trim = factory.TrimKnob(pk, knob)
+            trim.__enter__()
+            if trim.active and any(s_ > knob for (s_, _k, _e) in layout[1:] if s_ < cut):
+                w.probe("trim_taken_before_cut")
             if consumer == "ccsds_generator":
                 gen = pk.ccsds_generator(source, **kwargs)
             elif consumer == "packet_generator_headers_only":
@@ -251,6 +262,8 @@ def run(ch, render=False):
                 except BaseException:
                     pass
     finally:
+        if trim is not None:
+            trim.__exit__(None, None, None)
         pk.time = saved_time
         sys.stdout = saved_stdout
         if sock is not None:
